@@ -35,8 +35,10 @@ Definition vs_error_shape : shape := err_shape "org.varlink.service" vs_error_va
 (* reply.rs:6-12  struct Reply<Params> { parameters: Option<Params>, continues: Option<bool> },
    both skip_serializing_if = "Option::is_none".
    Tree as pinned: exactly these two fields (reply_shape_unguarded).
-   After `fix: a message with an error member is never a successful reply` the struct has a third,
-   never serialized member named "error" whose type refuses every value. *)
+   Since b42f3c8 `fix: a message with an error member never deserializes as a successful reply`
+   the struct has a third, never serialized member named "error"
+   (#[serde(default, skip_serializing, rename = "error")] _no_error: NoError) whose type refuses
+   every value (reply.rs: impl Deserialize for NoError). *)
 Definition reply_shape_unguarded (P : shape) : shape :=
   SStruct [("parameters", SOption P, FSkipNone); ("continues", SOption SBool, FSkipNone)].
 
@@ -44,7 +46,7 @@ Definition reply_shape_guarded (P : shape) : shape :=
   SStruct [("parameters", SOption P, FSkipNone); ("continues", SOption SBool, FSkipNone);
            ("error", SNever, FGuard)].
 
-Definition reply_shape : shape -> shape := reply_shape_unguarded.
+Definition reply_shape : shape -> shape := reply_shape_guarded.
 
 (* ---------------------------------------------------------------- receive_reply *)
 Inductive outcome :=
